@@ -220,6 +220,7 @@ func (h *sessHarness) call(withSession bool, f func() (ret string, msg string)) 
 		if frozen != nil {
 			emit("crashinside %d", freezeAt)
 			h.st.recs = frozen
+			h.st.dead = true
 			h.crashNow = true
 			if h.inReq {
 				h.skipToEnd = true
@@ -270,6 +271,9 @@ func b2i(b bool) int {
 func (h *sessHarness) dump() {
 	ids := sessions.VerifCachedIDs()
 	sort.Strings(ids)
+	if h.crashNow {
+		ids = nil // the memory of a process that died at a crash point is not observable
+	}
 	for _, id := range ids {
 		if s := sessions.VerifCached(id); s != nil {
 			emit("c %s %s", q(id), renderFields(sessions.VerifFields(s), true))
